@@ -63,6 +63,7 @@ def profile(codec, probe=None):
     p.p_reconstrain = 0.0
     p.p_recursive = 0.0
     p.p_twin_member = 0.1
+    p.size_on_ref = False          # SIZE re-constraints on references are not part of the documented subset
     p.p_enum_ext = 0.0
     p.p_group = 0.0
     p.p_ext_implied = 0.0
@@ -140,7 +141,7 @@ def mutate(rnd, data):
     return bytes(data)
 
 
-def evolve_additions(spec, rnd):
+def evolve_additions(spec, rnd, known_only=False):
     """V2 = V1 + 1..3 extension additions (C-subset types) in extensible SEQUENCEs; -> V2 spec or None."""
     s2 = copy.deepcopy(spec)
     nodes = []
@@ -155,6 +156,8 @@ def evolve_additions(spec, rnd):
     for m in s2.modules:
         for name, t in m.types():
             walk(t)
+    if known_only:
+        nodes = [t for t in nodes if flat_additions(t)]
     if not nodes:
         return None
     n = 0
@@ -169,6 +172,41 @@ def evolve_additions(spec, rnd):
     if n == 0:
         return None
     return s2
+
+
+PRIMITIVE_INLINE = ('BOOLEAN', 'INTEGER', 'REAL', 'NULL', 'OCTET STRING')
+
+
+def simplify_additions(gs, allowed):
+    """Replace the type of every extension addition that is not a primitive inline type by a primitive one
+    (in place; text/env of gs are rebuilt). -> number of replacements"""
+    count = [0]
+    rnd = core.random.Random(gs.key + '/simplify')
+
+    def walk(t):
+        if t.kind == 'SEQUENCE':
+            for c in flat_additions(t):
+                if (c.t.kind not in allowed) if allowed is not None else (c.t.kind == 'BIT STRING'):
+                    c.t = rnd.choice([T('BOOLEAN'), T('INTEGER', rng=Range(0, 255)), T('INTEGER', rng=Range(-70000, 70000)),
+                                      T('OCTET STRING', size=Range(0, 5))])
+                    from ..asn.ast import NODEFAULT
+                    c.default = NODEFAULT
+                    c.default_txt = None
+                    count[0] += 1
+        if t.kind in ('SEQUENCE', 'CHOICE'):
+            for c in all_comps(t):
+                walk(c.t)
+        elif t.kind == 'SEQUENCE OF':
+            walk(t.elem)
+    for m in gs.spec.modules:
+        for name, t in m.types():
+            walk(t)
+    if count[0]:
+        gs.text = spec_text(gs.spec)
+        gs.env = Env(gs.spec)
+        gs.legal = is_legal(gs.spec)
+        gs._compiled = {}
+    return count[0]
 
 
 def run_shard_for(ctx, ID, codec):
@@ -188,6 +226,16 @@ def run_shard_for(ctx, ID, codec):
             st.inc('modules')
             if not gs.legal:
                 continue
+            if codec == 'oer':
+                if 'oer-c-extension-addition-length-code' in ctx.active:
+                    # known finding (witness re-probed at the start of this run): additions of non-primitive types
+                    # do not compile; keep the rest of the module testable by giving such additions a primitive type
+                    n = simplify_additions(gs, PRIMITIVE_INLINE)
+                    if n:
+                        st.inc('carved_out:oer-c-extension-addition-length-code', n)
+                else:
+                    # a BIT STRING addition is refused by the generator ("Unsupported type"): not generated, for yield
+                    simplify_additions(gs, None)
             probe = None
             text = gs.text
             # every 4th module carries one construct outside the documented subset
@@ -280,7 +328,7 @@ def one_module(ctx, ID, codec, at, cgen_api, gs, key, text, spec, header, source
                 st.inc('python_encode_failed')
     # newer-version cases (C10)
     if codec == 'oer' and not probe:
-        s2 = evolve_additions(gs.spec, gs.rnd)
+        s2 = evolve_additions(gs.spec, gs.rnd, known_only='oer-c-empty-extension-marker-additions-not-skipped' in ctx.active)
         if s2 is not None and is_legal(s2):
             try:
                 spec2 = at.compile_string(spec_text(s2), codec)
